@@ -41,6 +41,8 @@ ASSUMPTIONS = [
     "Excl: criteria with no values, empty any_of(), empty queries inside any_of, equals with several values (Bugzilla's treatment is arguable)",
     "Excl: limit/offset/order are not part of a search's meaning; only their unchanged repetition in batches is checked",
     "Excl: splittable=True on hand-built Criterion objects (only package_list_any creates splittable criteria)",
+    "with two splittable axes the axis judged is the one the docstring names ('only the largest splittable axis is divided', pinned by "
+    "test_widest_axis_is_chosen) when it is strictly the widest in both raw and url-encoded characters; on a tie/disagreement any axis is accepted",
     "budget premise 'a single value fits' = every split value alone, next to all other parameters, fits base_length+max_length; "
     "no minimality of the number of batches is demanded (the statement does not ask for it)",
 ]
@@ -48,7 +50,7 @@ BOUNDS = {
     "quick": "18,792 query expressions (32 leaves, all ordered pairs, triples over 10 leaves in both groupings, any_of over 1-3 of 22 "
     "operands, nested any_of to depth 2, group x leaf combinations, paging) each on the product universe of the touched fields (4-768 bugs); "
     "batches: 605 configurations = n in {0,1,2,3,5,12} values of length 1/8/40/mixed x {id, package-list} axis x 6 contexts x base {0,100} "
-    "(+ two-axis and no-axis cases) x every integer budget from below one-value-fits to above all-fit (thinned when the range exceeds 120): 34.7k batch runs",
+    "(+ two-axis cases incl. more-but-shorter vs fewer-but-longer values in both directions, and a no-axis case) x every integer budget from below one-value-fits to above all-fit (thinned when the range exceeds 120): 34.7k batch runs",
     "thorough": "127,865 query expressions (triples over all 32 leaves in both groupings, & chains of 4, any_of over 1-3 of 33 operands and 4 of 8, "
     "deeper nesting); batches: 1,277 configurations, n in 0..12, every integer budget: 170k batch runs",
 }
@@ -542,10 +544,19 @@ def check_batches(spec, base, maxlen, semantic=False):
                     )
         return None, ovals, premise
 
-    # Which splittable axis is divided is the implementation's choice (docstring: the largest); the statement only speaks
-    # of "the split values", so the batches are accepted if they are right for some splittable axis.  The widest axis is
-    # tried first and is the one reported on failure.
-    cands.sort(key=lambda key: -len("".join(vals(orig, key))))
+    # Which axis is divided: the docstring says "only the largest splittable axis is divided, everything else is repeated
+    # in every batch" (pinned by test_widest_axis_is_chosen), and "a single value fits" can only be read against that axis.
+    # So when one splittable axis is strictly the widest both in raw and in url-encoded characters it is THE axis judged;
+    # when the two measures tie or disagree, "largest" is not decided here and any splittable axis is accepted.
+    def width(key):
+        vs = vals(orig, key)
+        return len("".join(vs)), sum(len(urllib.parse.quote_plus(v)) for v in vs)
+
+    cands.sort(key=lambda key: tuple(-w for w in width(key)))
+    if len(cands) > 1:
+        r0, e0 = width(cands[0])
+        if all(r0 > width(k)[0] and e0 > width(k)[1] for k in cands[1:]):
+            cands = cands[:1]
     verdicts = [(key,) + judge(key) for key in cands]
     good = [v for v in verdicts if v[1] is None]
     if not good:
@@ -737,7 +748,20 @@ def batch_configs(tier):
                     for base in (0, 100):
                         out.append([spec, base])
     # both axes present: the narrower one rides along
-    for n1, p1, n2, p2 in [(2, "short", 5, "mid"), (5, "mid", 2, "short"), (3, "long", 3, "mid"), (3, "mid", 3, "long"), (0, "short", 4, "mid"), (4, "mid", 0, "short"), (12, "short", 1, "long")]:
+    # incl. pairs where the axis with more values is not the wider one (both directions)
+    for n1, p1, n2, p2 in [
+        (2, "short", 5, "mid"),
+        (5, "mid", 2, "short"),
+        (3, "long", 3, "mid"),
+        (3, "mid", 3, "long"),
+        (0, "short", 4, "mid"),
+        (4, "mid", 0, "short"),
+        (12, "short", 1, "long"),
+        (9, "short", 3, "long"),
+        (8, "short", 4, "mid"),
+        (2, "long", 9, "short"),
+        (3, "mid", 12, "short"),
+    ]:
         for base in (0, 100):
             out.append([AND(["ids_gen", n1, p1], ["pkgs_gen", n2, p2]), base])
             out.append([AND(["pkgs_gen", n2, p2], AND(["ids_gen", n1, p1], ["unresolved"])), base])
